@@ -1,4 +1,5 @@
 import XgcmModel.Model.Parsers
+import XgcmModel.Gen.Tables
 /-
   C14 — Metadata autoparsing recovers exactly the topology the conventions prescribe.
 -/
@@ -188,6 +189,15 @@ theorem sgrid_axes_table :
 /-- non-vacuity -/
 example : (comodoAxis [mkCoord 4 .outer "xo" true, mkCoord 4 .center "xc" false, mkCoord 4 .left "xg" false]).toOption =
     some [(.center, "xc"), (.outer, "xo"), (.left, "xg")] := by
+  decide +kernel
+
+/-- **The tables of the model are the tables of the source** (re-extracted on every run): SGRID's `pad2pos`
+    maps exactly the four padding words, each to the position the model assigns; COMODO's shift constants are
+    -1/2 (left), +1/2 (right) and 0 (centre). -/
+theorem tables_are_the_sources :
+    Gen.sgridPad2Pos.map (·.1) = ["high", "low", "both", "none"] ∧
+    Gen.sgridPad2Pos.all (fun e => (padToPos e.1).map Pos.toString == some e.2) = true ∧
+    Gen.comodoShiftsTwice = [-1, 1, 0] := by
   decide +kernel
 
 end Xgcm.C14
